@@ -395,3 +395,19 @@ func typeKindOf(t any) reflect.Kind { return t.(reflect.Type).Kind() }
 //@ modifies everything
 //@ at call strconv.ParseFloat#0 assert-before precision-of-destination: callArg1 == bits
 //@ at call strconv.ParseFloat#1 assert-before precision-of-destination: callArg1 == bits
+
+// ---------------------------------------------------------------- error values do not alias the decoder's buffer (C18)
+//
+// A SemanticError handed to the caller carries a copy of the offending JSON value:
+// it must stay what it was when later calls reuse the (pooled or caller-owned) buffer.
+
+//@ extern bytes.Clone(b []byte) (result []byte)
+//@ trusted bytes: nil for nil, otherwise a copy in a new array
+//@ ensures len(result) == len(b) && (cap(result) == 0 || freshArray(result))
+
+//@ func newUnmarshalErrorAfterWithValue
+//@ property C18
+//@ assertions-only error construction is uncontracted: only the freshness of the recorded value is decided
+//@ requires d != nil
+//@ modifies everything
+//@ at return#0 assert value-is-a-copy: !(serr.JSONKind == '"' || serr.JSONKind == '0') || cap(serr.JSONValue) == 0 || freshArray(serr.JSONValue)
